@@ -131,7 +131,7 @@ class State:
 
 SYNC = {'vf_mutex_lock', 'vf_mutex_unlock', 'vf_cv_wait', 'vf_cv_wait_for', 'vf_cv_notify_one', 'vf_cv_notify_all',
         'vf_atomic_point', 'eventpp_verif_point', 'vf_join_all', 'vf_yield',
-        'pthread_mutex_lock', 'pthread_mutex_unlock'}
+        'pthread_mutex_lock', 'pthread_mutex_unlock', 'pthread_mutex_trylock'}
 NOSCHED_ORD = ('monotonic', 'unordered')
 
 
@@ -1424,6 +1424,11 @@ def x_mutex_lock(e, st, work, fr, ins, a):
         if st.mutexes[a[0]] == st.cur: raise Violation('deadlock: mutex locked again by the thread that owns it (non-recursive)', 'deadlock')
         if len(st.threads) == 1: raise Violation('deadlock: mutex already held', 'deadlock')
         raise Reschedule()
+    st.mutexes[a[0]] = st.cur; return 0
+
+@ext('pthread_mutex_trylock')
+def x_mutex_trylock(e, st, work, fr, ins, a):
+    if st.mutexes.get(a[0]) is not None: return 16      # EBUSY
     st.mutexes[a[0]] = st.cur; return 0
 
 @ext('vf_mutex_unlock', 'pthread_mutex_unlock')
